@@ -55,11 +55,11 @@ def check_source(src, expected=None, tag="generated"):
             an = gen_syntax.alpha_to_nform(a["ast"])
         except AlphaPoison:
             return None, dict(info, skipped="poison in first-generation AST")
-        diff = gen_syntax.first_difference(norm(an), norm(dn))
+        diff = gen_syntax.first_difference(norm(an), norm(gen_syntax.strip_import_flags(dn)))
         if diff:
             return "the two parsers build different trees: " + classify(diff), diff
         if expected is not None:
-            diff = gen_syntax.first_difference(norm(expected), norm(an))
+            diff = gen_syntax.first_difference(norm(gen_syntax.strip_import_flags(expected)), norm(an))
             if diff:
                 return "first-generation tree differs from the source: " + classify(diff), diff
         info["compared_with_first_generation"] = True
